@@ -1,1 +1,729 @@
-pub fn run(_args: &vcommon::Args) { unimplemented!() }
+//! C21 — Textual identifiers round-trip.
+//!
+//! Types: PublicKey (= NodeId), Did, RepoId, Signature, Alias, UserAgent.
+//!  * parse(print(v)) == v through every public text path (Display/FromStr, TryFrom<String>,
+//!    serde as JSON string, `Did::encode/decode`, `RepoId::urn/from_urn/canonical/from_canonical`,
+//!    `TryFrom<OsString>`);
+//!  * print(v) is the canonical form, judged by an own base58btc encoder:
+//!    `z<b58(0xed01 ‖ key)>`, `did:key:z…`, `rad:z<b58(oid)>`, `z<b58(sig)>`; for Alias/UserAgent
+//!    the text itself;
+//!  * other accepted spellings of the same bytes (multibase base16/base32/base64…, RepoId without
+//!    the `rad:` prefix) must parse to the same value and print canonically;
+//!  * arbitrary / mutated text through every parser under `catch_unwind`: never a panic; whatever
+//!    is accepted must print canonically and re-parse to itself.
+//!
+//! Reading of the statement (rule 1): which texts are accepted is not judged (only "no panic" and
+//! the round trip of what was accepted). `Alias::from(&NodeId)` builds a 48-byte alias that its
+//! own parser rejects; the quantifier is "valid values … at their length limits", so this is only
+//! counted as an observation, not reported as a violation.
+use std::ffi::OsString;
+use std::str::FromStr;
+
+use radicle::crypto::{PublicKey, Signature};
+use radicle::identity::{Did, RepoId};
+use radicle::node::{Alias, UserAgent};
+use vcommon::{guarded, hex, json, Args, Reporter, Rng, Value};
+
+// ---------------------------------------------------------------------------------------------
+// own encoders (reference)
+
+const B58: &[u8; 58] = b"123456789ABCDEFGHJKLMNPQRSTUVWXYZabcdefghijkmnopqrstuvwxyz";
+
+pub fn b58(input: &[u8]) -> String {
+    let zeros = input.iter().take_while(|b| **b == 0).count();
+    let mut digits: Vec<u8> = vec![]; // little endian base-58 digits
+    for &byte in &input[zeros..] {
+        let mut carry = byte as u32;
+        for d in digits.iter_mut() {
+            carry += (*d as u32) << 8;
+            *d = (carry % 58) as u8;
+            carry /= 58;
+        }
+        while carry > 0 {
+            digits.push((carry % 58) as u8);
+            carry /= 58;
+        }
+    }
+    let mut s = "1".repeat(zeros);
+    s.extend(digits.iter().rev().map(|d| B58[*d as usize] as char));
+    s
+}
+
+fn b64(input: &[u8], url: bool, pad: bool) -> String {
+    let abc: &[u8; 64] = if url { b"ABCDEFGHIJKLMNOPQRSTUVWXYZabcdefghijklmnopqrstuvwxyz0123456789-_" } else { b"ABCDEFGHIJKLMNOPQRSTUVWXYZabcdefghijklmnopqrstuvwxyz0123456789+/" };
+    let mut s = String::new();
+    for c in input.chunks(3) {
+        let n = (c[0] as u32) << 16 | (*c.get(1).unwrap_or(&0) as u32) << 8 | *c.get(2).unwrap_or(&0) as u32;
+        s.push(abc[(n >> 18) as usize & 63] as char);
+        s.push(abc[(n >> 12) as usize & 63] as char);
+        if c.len() > 1 {
+            s.push(abc[(n >> 6) as usize & 63] as char);
+        } else if pad {
+            s.push('=');
+        }
+        if c.len() > 2 {
+            s.push(abc[n as usize & 63] as char);
+        } else if pad {
+            s.push('=');
+        }
+    }
+    s
+}
+
+fn b32(input: &[u8], upper: bool) -> String {
+    let abc: &[u8; 32] = if upper { b"ABCDEFGHIJKLMNOPQRSTUVWXYZ234567" } else { b"abcdefghijklmnopqrstuvwxyz234567" };
+    let mut s = String::new();
+    let (mut acc, mut bits) = (0u32, 0u32);
+    for &b in input {
+        acc = (acc << 8) | b as u32;
+        bits += 8;
+        while bits >= 5 {
+            s.push(abc[(acc >> (bits - 5)) as usize & 31] as char);
+            bits -= 5;
+        }
+    }
+    if bits > 0 {
+        s.push(abc[(acc << (5 - bits)) as usize & 31] as char);
+    }
+    s
+}
+
+/// Other multibase spellings of the same bytes: (base name, text).
+fn alt_spellings(bytes: &[u8]) -> Vec<(&'static str, String)> {
+    vec![
+        ("base16", format!("f{}", hex(bytes))),
+        ("base16upper", format!("F{}", hex(bytes).to_uppercase())),
+        ("base32", format!("b{}", b32(bytes, false))),
+        ("base32upper", format!("B{}", b32(bytes, true))),
+        ("base64", format!("m{}", b64(bytes, false, false))),
+        ("base64pad", format!("M{}", b64(bytes, false, true))),
+        ("base64url", format!("u{}", b64(bytes, true, false))),
+        ("base64urlpad", format!("U{}", b64(bytes, true, true))),
+    ]
+}
+
+fn pk_bytes(pk: &PublicKey) -> [u8; 32] {
+    let mut b = [0u8; 32];
+    b.copy_from_slice(&pk[..]);
+    b
+}
+
+fn canon_pk(b: &[u8; 32]) -> String {
+    let mut v = vec![0xed, 0x01];
+    v.extend(b);
+    format!("z{}", b58(&v))
+}
+
+fn canon_rid(oid: &[u8]) -> String {
+    format!("rad:z{}", b58(oid))
+}
+
+// ---------------------------------------------------------------------------------------------
+// round trips of valid values
+
+fn quoted(s: &str) -> String {
+    serde_json::to_string(s).unwrap_or_default()
+}
+
+fn rt_public_key(rep: &mut Reporter, b: [u8; 32]) {
+    rep.eval();
+    let v = PublicKey::from(b);
+    let want = canon_pk(&b);
+    let r = guarded(|| {
+        let s = v.to_string();
+        let mut bad = vec![];
+        if s != want || v.to_human() != want || String::from(v) != want {
+            bad.push("print-not-canonical");
+        }
+        if PublicKey::from_str(&s).ok() != Some(v) {
+            bad.push("from_str");
+        }
+        if PublicKey::try_from(s.clone()).ok() != Some(v) {
+            bad.push("try_from-string");
+        }
+        if serde_json::to_string(&v).ok() != Some(quoted(&want)) || serde_json::from_str::<PublicKey>(&quoted(&s)).ok() != Some(v) {
+            bad.push("serde");
+        }
+        (s, bad)
+    });
+    match r {
+        Err(p) => rep.violation(&format!("C21/panic/PublicKey/{}", vcommon::panic_site(&p)), json!({"type": "PublicKey", "bytes": hex(&b), "panic": p})),
+        Ok((_, bad)) if bad.is_empty() => rep.count("roundtrip:PublicKey"),
+        Ok((s, bad)) => rep.violation(&format!("C21/PublicKey/roundtrip/{}", bad[0]), json!({"type": "PublicKey", "bytes": hex(&b), "printed": s, "expected": want, "failed": bad})),
+    }
+    let mut full = vec![0xed, 0x01];
+    full.extend(b);
+    for (base, text) in alt_spellings(&full) {
+        let t = text.clone();
+        match guarded(move || PublicKey::from_str(&t)) {
+            Err(p) => rep.violation(&format!("C21/panic/PublicKey::from_str/{}", vcommon::panic_site(&p)), json!({"text": text, "panic": p})),
+            Ok(Err(_)) => rep.count(&format!("alt-spelling-rejected:PublicKey:{base}")),
+            Ok(Ok(p)) => {
+                rep.count("alt-spelling-accepted:PublicKey");
+                if p != v || p.to_string() != want {
+                    rep.violation("C21/PublicKey/alternative-spelling-parses-or-prints-differently", json!({"type": "PublicKey", "text": text, "printed": p.to_string(), "expected": want}));
+                }
+            }
+        }
+    }
+}
+
+fn rt_did(rep: &mut Reporter, b: [u8; 32]) {
+    rep.eval();
+    let v = Did::from(PublicKey::from(b));
+    let want = format!("did:key:{}", canon_pk(&b));
+    let r = guarded(|| {
+        let s = v.to_string();
+        let mut bad = vec![];
+        if s != want || v.encode() != want || String::from(v) != want {
+            bad.push("print-not-canonical");
+        }
+        if Did::from_str(&s).ok() != Some(v) || Did::decode(&s).ok() != Some(v) {
+            bad.push("from_str");
+        }
+        if Did::try_from(s.clone()).ok() != Some(v) {
+            bad.push("try_from-string");
+        }
+        if serde_json::to_string(&v).ok() != Some(quoted(&want)) || serde_json::from_str::<Did>(&quoted(&s)).ok() != Some(v) {
+            bad.push("serde");
+        }
+        if pk_bytes(v.as_key()) != b {
+            bad.push("key-bytes");
+        }
+        (s, bad)
+    });
+    match r {
+        Err(p) => rep.violation(&format!("C21/panic/Did/{}", vcommon::panic_site(&p)), json!({"type": "Did", "bytes": hex(&b), "panic": p})),
+        Ok((_, bad)) if bad.is_empty() => rep.count("roundtrip:Did"),
+        Ok((s, bad)) => rep.violation(&format!("C21/Did/roundtrip/{}", bad[0]), json!({"type": "Did", "bytes": hex(&b), "printed": s, "expected": want, "failed": bad})),
+    }
+    let mut full = vec![0xed, 0x01];
+    full.extend(b);
+    for (base, text) in alt_spellings(&full) {
+        let text = format!("did:key:{text}");
+        let t = text.clone();
+        match guarded(move || Did::from_str(&t)) {
+            Err(p) => rep.violation(&format!("C21/panic/Did::from_str/{}", vcommon::panic_site(&p)), json!({"text": text, "panic": p})),
+            Ok(Err(_)) => rep.count(&format!("alt-spelling-rejected:Did:{base}")),
+            Ok(Ok(p)) => {
+                rep.count("alt-spelling-accepted:Did");
+                if p != v || p.to_string() != want {
+                    rep.violation("C21/Did/alternative-spelling-parses-or-prints-differently", json!({"type": "Did", "text": text, "printed": p.to_string(), "expected": want}));
+                }
+            }
+        }
+    }
+}
+
+fn rt_repo_id(rep: &mut Reporter, oid: [u8; 20]) {
+    rep.eval();
+    let Ok(g) = git2::Oid::from_bytes(&oid) else { return };
+    let v = RepoId::from(g);
+    let want = canon_rid(&oid);
+    let bare = want["rad:".len()..].to_string();
+    let r = guarded(|| {
+        let s = v.to_string();
+        let mut bad = vec![];
+        if s != want || v.urn() != want || v.canonical() != bare {
+            bad.push("print-not-canonical");
+        }
+        if RepoId::from_str(&s).ok() != Some(v) || RepoId::from_urn(&s).ok() != Some(v) {
+            bad.push("from_str");
+        }
+        if RepoId::from_canonical(&bare).ok() != Some(v) || RepoId::from_str(&bare).ok() != Some(v) {
+            bad.push("from_canonical");
+        }
+        if RepoId::try_from(OsString::from(bare.clone())).ok() != Some(v) {
+            bad.push("try_from-osstring");
+        }
+        if serde_json::to_string(&v).ok() != Some(quoted(&want)) || serde_json::from_str::<RepoId>(&quoted(&s)).ok() != Some(v) {
+            bad.push("serde");
+        }
+        (s, bad)
+    });
+    match r {
+        Err(p) => rep.violation(&format!("C21/panic/RepoId/{}", vcommon::panic_site(&p)), json!({"type": "RepoId", "bytes": hex(&oid), "panic": p})),
+        Ok((_, bad)) if bad.is_empty() => rep.count("roundtrip:RepoId"),
+        Ok((s, bad)) => rep.violation(&format!("C21/RepoId/roundtrip/{}", bad[0]), json!({"type": "RepoId", "bytes": hex(&oid), "printed": s, "expected": want, "failed": bad})),
+    }
+    for (base, text) in alt_spellings(&oid) {
+        for text in [format!("rad:{text}"), text.clone()] {
+            let t = text.clone();
+            match guarded(move || RepoId::from_str(&t)) {
+                Err(p) => rep.violation(&format!("C21/panic/RepoId::from_str/{}", vcommon::panic_site(&p)), json!({"text": text, "panic": p})),
+                Ok(Err(_)) => rep.count(&format!("alt-spelling-rejected:RepoId:{base}")),
+                Ok(Ok(p)) => {
+                    rep.count("alt-spelling-accepted:RepoId");
+                    if p != v || p.to_string() != want {
+                        rep.violation("C21/RepoId/alternative-spelling-parses-or-prints-differently", json!({"type": "RepoId", "text": text, "printed": p.to_string(), "expected": want}));
+                    }
+                }
+            }
+        }
+    }
+}
+
+fn rt_signature(rep: &mut Reporter, b: [u8; 64]) {
+    rep.eval();
+    let v = Signature::from(b);
+    let want = format!("z{}", b58(&b));
+    let r = guarded(|| {
+        let s = v.to_string();
+        let mut bad = vec![];
+        if s != want || String::from(v) != want {
+            bad.push("print-not-canonical");
+        }
+        if Signature::from_str(&s).ok() != Some(v) || Signature::try_from(s.clone()).ok() != Some(v) {
+            bad.push("from_str");
+        }
+        if serde_json::to_string(&v).ok() != Some(quoted(&want)) || serde_json::from_str::<Signature>(&quoted(&s)).ok() != Some(v) {
+            bad.push("serde");
+        }
+        (s, bad)
+    });
+    match r {
+        Err(p) => rep.violation(&format!("C21/panic/Signature/{}", vcommon::panic_site(&p)), json!({"type": "Signature", "bytes": hex(&b), "panic": p})),
+        Ok((_, bad)) if bad.is_empty() => rep.count("roundtrip:Signature"),
+        Ok((s, bad)) => rep.violation(&format!("C21/Signature/roundtrip/{}", bad[0]), json!({"type": "Signature", "bytes": hex(&b), "printed": s, "expected": want, "failed": bad})),
+    }
+    for (base, text) in alt_spellings(&b) {
+        let t = text.clone();
+        match guarded(move || Signature::from_str(&t)) {
+            Err(p) => rep.violation(&format!("C21/panic/Signature::from_str/{}", vcommon::panic_site(&p)), json!({"text": text, "panic": p})),
+            Ok(Err(_)) => rep.count(&format!("alt-spelling-rejected:Signature:{base}")),
+            Ok(Ok(p)) => {
+                rep.count("alt-spelling-accepted:Signature");
+                if p != v || p.to_string() != want {
+                    rep.violation("C21/Signature/alternative-spelling-parses-or-prints-differently", json!({"type": "Signature", "text": text, "printed": p.to_string(), "expected": want}));
+                }
+            }
+        }
+    }
+}
+
+/// The text round trip of an accepted alias / user agent: the text is its own canonical form.
+fn check_alias_value(rep: &mut Reporter, text: &str, v: &Alias, origin: &str) {
+    let (t, v2) = (text.to_string(), v.clone());
+    let r = guarded(move || {
+        let mut bad = vec![];
+        let s = v2.to_string();
+        if s != t || v2.as_str() != t || String::from(v2.clone()) != t {
+            bad.push("print-not-canonical");
+        }
+        if Alias::from_str(&s).ok().as_ref() != Some(&v2) || Alias::try_from(s.clone()).ok().as_ref() != Some(&v2) {
+            bad.push("from_str");
+        }
+        if serde_json::to_string(&v2).ok() != Some(quoted(&t)) || serde_json::from_str::<Alias>(&quoted(&s)).ok().as_ref() != Some(&v2) {
+            bad.push("serde");
+        }
+        if Alias::new(&s) != v2 {
+            bad.push("new");
+        }
+        bad
+    });
+    match r {
+        Err(p) => rep.violation(&format!("C21/panic/Alias/{}", vcommon::panic_site(&p)), json!({"type": "Alias", "text": text, "panic": p})),
+        Ok(bad) if bad.is_empty() => rep.count(&format!("roundtrip:Alias:{origin}")),
+        Ok(bad) => rep.violation(&format!("C21/Alias/roundtrip/{}", bad[0]), json!({"type": "Alias", "text": text, "failed": bad})),
+    }
+}
+
+fn check_agent_value(rep: &mut Reporter, text: &str, v: &UserAgent, origin: &str) {
+    let (t, v2) = (text.to_string(), v.clone());
+    let r = guarded(move || {
+        let mut bad = vec![];
+        let s = v2.to_string();
+        if s != t || v2.as_str() != t || v2.as_ref() != t {
+            bad.push("print-not-canonical");
+        }
+        if UserAgent::from_str(&s).ok().as_ref() != Some(&v2) {
+            bad.push("from_str");
+        }
+        if serde_json::to_string(&v2).ok() != Some(quoted(&t)) || serde_json::from_str::<UserAgent>(&quoted(&s)).ok().as_ref() != Some(&v2) {
+            bad.push("serde");
+        }
+        bad
+    });
+    match r {
+        Err(p) => rep.violation(&format!("C21/panic/UserAgent/{}", vcommon::panic_site(&p)), json!({"type": "UserAgent", "text": text, "panic": p})),
+        Ok(bad) if bad.is_empty() => rep.count(&format!("roundtrip:UserAgent:{origin}")),
+        Ok(bad) => rep.violation(&format!("C21/UserAgent/roundtrip/{}", bad[0]), json!({"type": "UserAgent", "text": text, "failed": bad})),
+    }
+}
+
+const ALIAS_CHARS: &[&str] = &["a", "Z", "0", "-", "_", ".", "$", "!", "\"", "\\", "/", ":", "@", "~", "é", "ß", "©", "日", "本", "😀", "\u{200B}", "\u{AD}", "\u{FEFF}", "\u{301}", "\u{E000}"];
+
+/// A candidate alias of exactly `len` bytes when possible (multi-byte characters at the boundary).
+fn gen_alias_text(rng: &mut Rng, len: usize) -> String {
+    let mut s = String::new();
+    let mut guard = 0;
+    while s.len() < len && guard < 200 {
+        guard += 1;
+        let c = *rng.pick(ALIAS_CHARS);
+        if s.len() + c.len() <= len {
+            s.push_str(c);
+        }
+    }
+    s
+}
+
+fn rt_alias(rep: &mut Reporter, rng: &mut Rng) {
+    rep.eval();
+    let len = *rng.pick(&[1usize, 2, 5, 12, 30, 31, 32, 32, 32]);
+    let text = gen_alias_text(rng, len);
+    let t = text.clone();
+    match guarded(move || Alias::from_str(&t)) {
+        Err(p) => rep.violation(&format!("C21/panic/Alias::from_str/{}", vcommon::panic_site(&p)), json!({"text": text, "panic": p})),
+        Ok(Err(_)) => rep.count("alias.valid-candidate-rejected"),
+        Ok(Ok(v)) => {
+            if text.len() == 32 {
+                rep.count("alias.at-32-byte-limit");
+                if !text.is_ascii() {
+                    rep.count("alias.at-32-byte-limit.multibyte");
+                }
+            }
+            check_alias_value(rep, &text, &v, "valid");
+        }
+    }
+    // one past the limit (must not panic; acceptance is counted)
+    let over = gen_alias_text(rng, 33);
+    if over.len() == 33 {
+        let o = over.clone();
+        match guarded(move || Alias::from_str(&o)) {
+            Err(p) => rep.violation(&format!("C21/panic/Alias::from_str/{}", vcommon::panic_site(&p)), json!({"text": over, "panic": p})),
+            Ok(Err(_)) => rep.count("alias.33-bytes-rejected"),
+            Ok(Ok(v)) => {
+                rep.count("alias.33-bytes-accepted");
+                check_alias_value(rep, &over, &v, "over-limit");
+            }
+        }
+    }
+}
+
+const UA_CLIENT: &[u8] = b"abcXYZ019-_.@!$%&'()*+,;<=>?[]^`{|}~\"#\\";
+const UA_VERSION: &[u8] = b"0123456789.-rcabX@+~_:";
+
+fn gen_agent_text(rng: &mut Rng, len: usize) -> String {
+    // "/" seg ("/" seg)* "/" of exactly `len` bytes when len >= 3
+    let mut s = String::from("/");
+    while s.len() + 2 <= len {
+        let room = len - s.len() - 1; // bytes available for this segment (closing slash kept)
+        let seg_len = if rng.chance(1, 3) { room } else { 1 + rng.usize(room.min(12)) };
+        let mut seg = String::new();
+        let with_version = seg_len >= 3 && rng.bool();
+        let client_len = if with_version { 1 + rng.usize(seg_len - 2) } else { seg_len };
+        for _ in 0..client_len {
+            seg.push(*rng.pick(UA_CLIENT) as char);
+        }
+        if with_version {
+            seg.push(':');
+            for _ in 0..seg_len - client_len - 1 {
+                seg.push(*rng.pick(UA_VERSION) as char);
+            }
+        }
+        s.push_str(&seg);
+        s.push('/');
+        if s.len() == len || rng.chance(1, 3) {
+            break;
+        }
+    }
+    s
+}
+
+fn rt_agent(rep: &mut Reporter, rng: &mut Rng) {
+    rep.eval();
+    let len = *rng.pick(&[3usize, 9, 20, 40, 63, 64, 64, 64]);
+    let text = if rng.chance(1, 20) { "/radicle/".to_string() } else { gen_agent_text(rng, len) };
+    let t = text.clone();
+    match guarded(move || UserAgent::from_str(&t)) {
+        Err(p) => rep.violation(&format!("C21/panic/UserAgent::from_str/{}", vcommon::panic_site(&p)), json!({"text": text, "panic": p})),
+        Ok(Err(_)) => rep.count("useragent.valid-candidate-rejected"),
+        Ok(Ok(v)) => {
+            if text.len() == 64 {
+                rep.count("useragent.at-64-byte-limit");
+            }
+            if text == "/radicle/" && v != UserAgent::default() {
+                rep.violation("C21/UserAgent/default-differs-from-its-text", json!({"text": text}));
+            }
+            check_agent_value(rep, &text, &v, "valid");
+        }
+    }
+    let over = gen_agent_text(rng, 65);
+    if over.len() == 65 {
+        let o = over.clone();
+        match guarded(move || UserAgent::from_str(&o)) {
+            Err(p) => rep.violation(&format!("C21/panic/UserAgent::from_str/{}", vcommon::panic_site(&p)), json!({"text": over, "panic": p})),
+            Ok(Err(_)) => rep.count("useragent.65-bytes-rejected"),
+            Ok(Ok(v)) => {
+                rep.count("useragent.65-bytes-accepted");
+                check_agent_value(rep, &over, &v, "over-limit");
+            }
+        }
+    }
+}
+
+// ---------------------------------------------------------------------------------------------
+// arbitrary text
+
+const NASTY: &[&str] = &[
+    "z", "Z", "f", "F", "b", "B", "c", "C", "v", "V", "t", "T", "h", "k", "K", "m", "M", "u", "U", "0", "7", "9", "\u{0}",
+    "1", "l", "I", "O", "o", "+", "/", "=", "-", "_", " ", "\t", "\n", "é", "日", "😀", "\u{80}", "\u{FEFF}", "\u{301}", ":", "rad:", "did:key:", "did:", "z6Mk", "%", "\\", "\"",
+];
+
+fn mutate_text(rng: &mut Rng, s: &str) -> String {
+    let mut m: Vec<char> = s.chars().collect();
+    for _ in 0..1 + rng.usize(3) {
+        match rng.below(7) {
+            0 if !m.is_empty() => {
+                let i = rng.usize(m.len());
+                m.remove(i);
+            }
+            1 => {
+                let i = rng.usize(m.len() + 1);
+                let ins: Vec<char> = rng.pick(NASTY).chars().collect();
+                for (k, c) in ins.into_iter().enumerate() {
+                    m.insert(i + k, c);
+                }
+            }
+            2 if !m.is_empty() => {
+                let i = rng.usize(m.len());
+                m[i] = rng.pick(NASTY).chars().next().unwrap_or('z');
+            }
+            3 => {
+                let n = rng.usize(m.len() + 1);
+                m.truncate(n);
+            }
+            4 if !m.is_empty() => {
+                let i = rng.usize(m.len());
+                m[i] = if m[i].is_lowercase() { m[i].to_ascii_uppercase() } else { m[i].to_ascii_lowercase() };
+            }
+            5 if !m.is_empty() => {
+                // change the multibase prefix (first character, or the one after the last ':')
+                let at = m.iter().rposition(|c| *c == ':').map(|p| p + 1).unwrap_or(0).min(m.len() - 1);
+                m[at] = rng.pick(NASTY).chars().next().unwrap_or('z');
+            }
+            _ => {
+                let d: Vec<char> = m.clone();
+                m.extend(d);
+            }
+        }
+    }
+    m.into_iter().collect()
+}
+
+fn gen_arbitrary_text(rng: &mut Rng) -> (String, &'static str) {
+    let mut kb = [0u8; 32];
+    rng.fill(&mut kb);
+    let mut ob = [0u8; 20];
+    rng.fill(&mut ob);
+    let mut sb = [0u8; 64];
+    rng.fill(&mut sb);
+    match rng.below(12) {
+        0 => (mutate_text(rng, &canon_pk(&kb)), "mutated-public-key"),
+        1 => (mutate_text(rng, &format!("did:key:{}", canon_pk(&kb))), "mutated-did"),
+        2 => (mutate_text(rng, &canon_rid(&ob)), "mutated-repo-id"),
+        3 => (mutate_text(rng, &format!("z{}", b58(&sb))), "mutated-signature"),
+        4 => {
+            let n = 1 + rng.usize(34);
+            let t = gen_alias_text(rng, n);
+            (mutate_text(rng, &t), "mutated-alias")
+        }
+        5 => {
+            let n = 3 + rng.usize(64);
+            let t = gen_agent_text(rng, n);
+            (mutate_text(rng, &t), "mutated-user-agent")
+        }
+        6 => {
+            // a multibase prefix followed by characters of mixed alphabets
+            let mut s = String::new();
+            if rng.bool() {
+                s.push_str(*rng.pick(&["", "rad:", "did:key:", "did:key", "rad", "did:web:"]));
+            }
+            s.push_str(*rng.pick(NASTY));
+            for _ in 0..rng.usize(70) {
+                if rng.chance(1, 10) {
+                    s.push_str(*rng.pick(NASTY));
+                } else {
+                    s.push(*rng.pick(b"0123456789ABCDEFGHJKLMNPQRSTUVWXYZabcdefghijkmnopqrstuvwxyz+/=-_lIO") as char);
+                }
+            }
+            (s, "multibase-soup")
+        }
+        7 => {
+            // right alphabet, wrong length
+            let n = *rng.pick(&[0usize, 1, 19, 21, 31, 33, 34, 35, 63, 65, 100]);
+            let bytes = rng.bytes(n);
+            let body = match rng.below(4) {
+                0 => format!("z{}", b58(&bytes)),
+                1 => format!("f{}", hex(&bytes)),
+                2 => format!("m{}", b64(&bytes, false, false)),
+                _ => format!("b{}", b32(&bytes, false)),
+            };
+            (format!("{}{body}", rng.pick(&["", "rad:", "did:key:"])), "wrong-length")
+        }
+        8 => {
+            // right length, wrong multicodec
+            let mut v = vec![*rng.pick(&[0xedu8, 0xec, 0x00, 0xe7]), *rng.pick(&[0x01u8, 0x00, 0x02])];
+            v.extend(kb);
+            (format!("{}z{}", rng.pick(&["", "did:key:"]), b58(&v)), "wrong-multicodec")
+        }
+        9 => (rng.pick(&["", "z", "rad:", "rad:z", "did:key:", "did:key:z", "/", "//", "/:/", "/a:/", "/:a/", " ", "\0", "é", "😀", "rad:é", "did:key:é", "z1", "f", "f0", "m=", "M=", "b=", "0", "9", "1"]).to_string(), "tiny"),
+        10 => {
+            let n = rng.usize(40);
+            (String::from_utf8_lossy(&rng.bytes(n)).to_string(), "random-bytes-lossy")
+        }
+        _ => {
+            // very long inputs
+            let unit = *rng.pick(&["z", "1", "a", "/a", "é", "f0"]);
+            (format!("{}{}", rng.pick(&["", "z", "rad:z", "did:key:z", "/"]), unit.repeat(200 + rng.usize(2000))), "long")
+        }
+    }
+}
+
+fn arbitrary(rep: &mut Reporter, text: &str, shape: &str) {
+    rep.eval();
+    rep.count(&format!("shape:{shape}"));
+    rep.nontrivial(vcommon::fnv(text.as_bytes()));
+    macro_rules! parser {
+        ($name:expr, $call:expr) => {{
+            let t = text.to_string();
+            match guarded(move || $call(&t)) {
+                Err(p) => {
+                    rep.violation(&format!("C21/panic/{}/{}", $name, vcommon::panic_site(&p)), json!({"kind": "arbitrary", "parser": $name, "text": text, "panic": p}));
+                    None
+                }
+                Ok(r) => r,
+            }
+        }};
+    }
+    // PublicKey
+    let pk = parser!("PublicKey::from_str", |t: &String| PublicKey::from_str(t).ok());
+    let _ = parser!("PublicKey::try_from-string", |t: &String| PublicKey::try_from(t.clone()).ok());
+    let pk_serde = parser!("PublicKey::deserialize", |t: &String| serde_json::from_value::<PublicKey>(Value::String(t.clone())).ok());
+    if let Some(v) = pk {
+        rep.count("arbitrary-accepted:PublicKey");
+        let want = canon_pk(&pk_bytes(&v));
+        if v.to_string() != want || PublicKey::from_str(&want).ok() != Some(v) || pk_serde != Some(v) {
+            rep.violation("C21/PublicKey/accepted-text-does-not-print-canonically", json!({"kind": "arbitrary", "text": text, "printed": v.to_string(), "expected": want}));
+        }
+    }
+    // Did
+    let did = parser!("Did::from_str", |t: &String| Did::from_str(t).ok());
+    let _ = parser!("Did::decode", |t: &String| Did::decode(t).ok());
+    let _ = parser!("Did::deserialize", |t: &String| serde_json::from_value::<Did>(Value::String(t.clone())).ok());
+    if let Some(v) = did {
+        rep.count("arbitrary-accepted:Did");
+        let want = format!("did:key:{}", canon_pk(&pk_bytes(v.as_key())));
+        if v.to_string() != want || Did::from_str(&want).ok() != Some(v) {
+            rep.violation("C21/Did/accepted-text-does-not-print-canonically", json!({"kind": "arbitrary", "text": text, "printed": v.to_string(), "expected": want}));
+        }
+    }
+    // RepoId
+    let rid = parser!("RepoId::from_str", |t: &String| RepoId::from_str(t).ok());
+    let _ = parser!("RepoId::from_urn", |t: &String| RepoId::from_urn(t).ok());
+    let _ = parser!("RepoId::from_canonical", |t: &String| RepoId::from_canonical(t).ok());
+    let _ = parser!("RepoId::try_from-osstring", |t: &String| RepoId::try_from(OsString::from(t.clone())).ok());
+    let _ = parser!("RepoId::deserialize", |t: &String| serde_json::from_value::<RepoId>(Value::String(t.clone())).ok());
+    if let Some(v) = rid {
+        rep.count("arbitrary-accepted:RepoId");
+        let want = canon_rid(v.as_bytes());
+        if v.to_string() != want || RepoId::from_str(&want).ok() != Some(v) {
+            rep.violation("C21/RepoId/accepted-text-does-not-print-canonically", json!({"kind": "arbitrary", "text": text, "printed": v.to_string(), "expected": want}));
+        }
+    }
+    // Signature
+    let sig = parser!("Signature::from_str", |t: &String| Signature::from_str(t).ok());
+    let _ = parser!("Signature::deserialize", |t: &String| serde_json::from_value::<Signature>(Value::String(t.clone())).ok());
+    if let Some(v) = sig {
+        rep.count("arbitrary-accepted:Signature");
+        let want = format!("z{}", b58(v.as_ref()));
+        if v.to_string() != want || Signature::from_str(&want).ok() != Some(v) {
+            rep.violation("C21/Signature/accepted-text-does-not-print-canonically", json!({"kind": "arbitrary", "text": text, "printed": v.to_string(), "expected": want}));
+        }
+    }
+    // Alias, UserAgent
+    let alias = parser!("Alias::from_str", |t: &String| Alias::from_str(t).ok());
+    let _ = parser!("Alias::deserialize", |t: &String| serde_json::from_value::<Alias>(Value::String(t.clone())).ok());
+    if let Some(v) = alias {
+        rep.count("arbitrary-accepted:Alias");
+        check_alias_value(rep, text, &v, "arbitrary");
+    }
+    let ua = parser!("UserAgent::from_str", |t: &String| UserAgent::from_str(t).ok());
+    if let Some(v) = ua {
+        rep.count("arbitrary-accepted:UserAgent");
+        check_agent_value(rep, text, &v, "arbitrary");
+    }
+}
+
+fn special_bytes<const N: usize>(rng: &mut Rng) -> [u8; N] {
+    let mut b = [0u8; N];
+    match rng.below(8) {
+        0 => {}
+        1 => b = [0xff; N],
+        2 => {
+            // leading zero bytes (leading '1's in base58)
+            rng.fill(&mut b);
+            let z = 1 + rng.usize(N / 2);
+            for x in b.iter_mut().take(z) {
+                *x = 0;
+            }
+        }
+        3 => b[N - 1] = 1,
+        _ => rng.fill(&mut b),
+    }
+    b
+}
+
+pub fn run(args: &Args) {
+    let mut rep = Reporter::new("C21");
+    if let Some(path) = &args.replay {
+        let w = vcommon::load_replay(path);
+        if let Some(text) = w["text"].as_str() {
+            arbitrary(&mut rep, text, "replay");
+            // alternative spellings are plain texts as well
+        }
+        match (w["type"].as_str(), w["bytes"].as_str().and_then(vcommon::unhex)) {
+            (Some("PublicKey"), Some(b)) if b.len() == 32 => rt_public_key(&mut rep, b.try_into().unwrap()),
+            (Some("Did"), Some(b)) if b.len() == 32 => rt_did(&mut rep, b.try_into().unwrap()),
+            (Some("RepoId"), Some(b)) if b.len() == 20 => rt_repo_id(&mut rep, b.try_into().unwrap()),
+            (Some("Signature"), Some(b)) if b.len() == 64 => rt_signature(&mut rep, b.try_into().unwrap()),
+            _ => {}
+        }
+        rep.finish();
+        return;
+    }
+    let n = args.budget(1_600_000, 40_000_000);
+    for k in 0..n {
+        let mut rng = Rng::new(args.case_seed(k));
+        match k % 8 {
+            0 => rt_public_key(&mut rep, special_bytes::<32>(&mut rng)),
+            1 => {
+                // a real key (a point on the curve) as well as arbitrary 32 bytes
+                let mut seed = [0u8; 32];
+                rng.fill(&mut seed);
+                let pk = *radicle::node::device::Device::mock_from_seed(seed).public_key();
+                rt_public_key(&mut rep, pk_bytes(&pk));
+                rt_did(&mut rep, special_bytes::<32>(&mut rng));
+                // observation only (see module doc): an alias built from a node id
+                let a = Alias::from(&pk);
+                if Alias::from_str(a.as_str()).is_err() {
+                    rep.count("observation:alias-from-node-id-is-not-parsable");
+                }
+            }
+            2 => rt_repo_id(&mut rep, special_bytes::<20>(&mut rng)),
+            3 => rt_signature(&mut rep, special_bytes::<64>(&mut rng)),
+            4 => {
+                rt_alias(&mut rep, &mut rng);
+                rt_agent(&mut rep, &mut rng);
+            }
+            _ => {
+                let (text, shape) = gen_arbitrary_text(&mut rng);
+                arbitrary(&mut rep, &text, shape);
+                if rep.wants_sample() && k > 40 {
+                    rep.sample(json!({"arbitrary_text": text, "shape": shape}));
+                }
+            }
+        }
+    }
+    rep.finish();
+}
